@@ -1,0 +1,69 @@
+//go:build verif
+
+// Accessors used only by the verification harness (build tag "verif"). They expose unexported
+// package state read-only; nothing here is compiled into normal builds.
+
+package apd
+
+import (
+	"fmt"
+	"hash/fnv"
+	"strings"
+)
+
+// VerifBigIntState reports how z is represented: whether the value lives in the inline array,
+// whether the negative sentinel is set, and the raw inline words.
+func VerifBigIntState(z *BigInt) (inline bool, negSentinelSet bool, words [inlineWords]uint64) {
+	for i, w := range z._inline {
+		words[i] = uint64(w)
+	}
+	return z.isInline(), z._inner == negSentinel, words
+}
+
+func verifDec(sb *strings.Builder, name string, d *Decimal) {
+	fmt.Fprintf(sb, "%s=%d/%v/%d/%s;", name, d.Form, d.Negative, d.Exponent, d.Coeff.String())
+}
+
+// VerifSnapshot returns a digest and a full dump of the package-level tables and constants that
+// every operation reads and none may modify.
+func VerifSnapshot() (digest uint64, dump string) {
+	var sb strings.Builder
+	for i := range digitsLookupTable {
+		e := &digitsLookupTable[i]
+		fmt.Fprintf(&sb, "dig[%d]=%d/%s/%s;", i, e.digits, e.border.String(), e.nborder.String())
+	}
+	for i := range pow10LookupTable {
+		fmt.Fprintf(&sb, "p10[%d]=%s;", i, pow10LookupTable[i].String())
+	}
+	for _, b := range []struct {
+		n string
+		v *BigInt
+	}{{"bigOne", bigOne}, {"bigTwo", bigTwo}, {"bigFive", bigFive}, {"bigTen", bigTen}} {
+		fmt.Fprintf(&sb, "%s=%s;", b.n, b.v.String())
+	}
+	for _, d := range []struct {
+		n string
+		v *Decimal
+	}{{"decimalZero", decimalZero}, {"decimalOneEighth", decimalOneEighth}, {"decimalHalf", decimalHalf},
+		{"decimalOne", decimalOne}, {"decimalTwo", decimalTwo}, {"decimalThree", decimalThree}, {"decimalEight", decimalEight},
+		{"decimalMaxInt64", decimalMaxInt64}, {"decimalMinInt64", decimalMinInt64},
+		{"decimalCbrtC1", decimalCbrtC1}, {"decimalCbrtC2", decimalCbrtC2}, {"decimalCbrtC3", decimalCbrtC3},
+		{"decimalNaN", decimalNaN}, {"decimalInfinity", decimalInfinity}} {
+		verifDec(&sb, d.n, d.v)
+	}
+	for _, c := range []struct {
+		n string
+		v *constWithPrecision
+	}{{"ln10", decimalLn10}, {"invLn10", decimalInvLn10}} {
+		verifDec(&sb, c.n+".unrounded", &c.v.unrounded)
+		for i := range c.v.vals {
+			verifDec(&sb, fmt.Sprintf("%s.vals[%d]", c.n, i), &c.v.vals[i])
+		}
+	}
+	fmt.Fprintf(&sb, "BaseContext=%d/%d/%d/%d/%s;", BaseContext.Precision, BaseContext.MaxExponent, BaseContext.MinExponent,
+		uint32(BaseContext.Traps), string(BaseContext.Rounding))
+	dump = sb.String()
+	h := fnv.New64a()
+	h.Write([]byte(dump))
+	return h.Sum64(), dump
+}
